@@ -1,4 +1,5 @@
 import ElfiVerif.Proofs.Smc
+import ElfiVerif.Proofs.SmcRound
 
 /-!
 # C07 — SMC-ABC populations: which population every weight / proposal / threshold refers to
@@ -68,3 +69,43 @@ theorem smc_weight_zero_outside (prior : Θ → F) (kernel : Θ → Θ → F) (m
 end weights
 
 end ElfiVerif.Smc
+
+/-! ### every round is a rejection run with the threshold in force (`SMC._rejection`): the population clauses of C07 from
+the rejection theorems of C01 (`Model/Rejection.lean`); any linear order of discrepancies, any sorting permutation,
+any batch size, population size, number of batches and number of rounds -/
+namespace ElfiVerif.SmcRound
+open ElfiVerif.Rejection
+
+variable {κ : Type} [LinearOrder κ] [OrderTop κ]
+
+/-- **A population has exactly `n_samples` particles, every one a simulated draw of its own round with discrepancy
+`≤` the threshold in force, no draw twice; the threshold it reports is not above the one in force; the round's
+simulations are `batch_size ×` its batches.**  `hest` is the margin property of the batch estimate
+(`Rejection.estExact_margin`). -/
+theorem round_population (sort : List (Slot κ) → List (Slot κ)) (hs : SortOK sort)
+    (est : Nat → Nat → Nat → Nat → Nat)
+    (hest : ∀ n b nAcc nb, 0 < b → 0 < nAcc → nAcc < n → nb < est n nAcc (nb * b) b)
+    (r : Round κ) (t : κ) (h : r.OK sort est t) :
+    let res := extract r.cfg r.st
+    res.rows.length = r.cfg.n ∧
+    (∀ s ∈ res.rows, s.key ≤ t ∧ s.origin.isSome = true ∧ s ∈ consumed r.batch r.st.nBatches) ∧
+    (res.rows.map (·.origin)).Nodup ∧
+    (∀ k, res.threshold = some k → k ≤ t) ∧
+    res.nSim = r.cfg.b * r.st.nBatches :=
+  round_population' sort hs est hest r t h
+
+/-- **All populations of a run, and the total number of simulations**: every round's population has `n` particles
+within that round's threshold, and the simulations of all rounds add up to `batch_size × (total batches)`
+(the number `nsim_total` says the sampler reports). -/
+theorem populations_total (sort : List (Slot κ) → List (Slot κ)) (hs : SortOK sort)
+    (est : Nat → Nat → Nat → Nat → Nat)
+    (hest : ∀ n b nAcc nb, 0 < b → 0 < nAcc → nAcc < n → nb < est n nAcc (nb * b) b)
+    (rounds : List (Round κ × κ)) (h : ∀ rt ∈ rounds, rt.1.OK sort est rt.2) (b n : Nat)
+    (hb : ∀ rt ∈ rounds, rt.1.cfg.b = b ∧ rt.1.cfg.n = n) :
+    (∀ rt ∈ rounds, (extract rt.1.cfg rt.1.st).rows.length = n ∧
+        ∀ s ∈ (extract rt.1.cfg rt.1.st).rows, s.key ≤ rt.2) ∧
+    ((rounds.map (fun rt => (extract rt.1.cfg rt.1.st).nSim)).sum =
+      b * (rounds.map (fun rt => rt.1.st.nBatches)).sum) :=
+  populations_total' sort hs est hest rounds h b n hb
+
+end ElfiVerif.SmcRound
